@@ -104,6 +104,15 @@ func c03(r *rand.Rand, tier string, tr *trace.Buf, extra map[string]interface{})
 		nkeys, nmsg = 40, 500
 	}
 	lens := []int{0, 1, 7, 135, 136, 137, 4096}
+	// lengths around the sizes that appear in the scheme (seed, CRH, SHAKE rates, key and signature sizes)
+	var structural []int
+	for _, c := range []int{32, 64, 136, 168, 2 * 136, 640, 1024, 2592, 4595, 4864, 2 * 4595} {
+		for d := -34; d <= 3; d++ {
+			if c+d >= 300 {
+				structural = append(structural, c+d)
+			}
+		}
+	}
 	exitCount := map[int]int{}
 	iterHist := map[int]int{}
 	boundary := map[string]int{}
@@ -121,8 +130,16 @@ func c03(r *rand.Rand, tier string, tr *trace.Buf, extra map[string]interface{})
 			if m >= len(lens) {
 				n = r.Intn(300)
 			}
+			if k < 2 { // the first two keys sweep every message length 0, 1, 2, ..
+				n = k*nmsg + m
+			}
 			if k == 0 && m == nmsg-1 {
 				n = 1 << 20
+			}
+			if k >= 2 {
+				if si := (k-2)*nmsg + m; si < len(structural) {
+					n = structural[si]
+				}
 			}
 			msg := make([]byte, n)
 			r.Read(msg)
